@@ -537,7 +537,11 @@ def dcm2quat(R: np.ndarray) -> np.ndarray:
     if R.shape[0] != 3:
         raise ValueError('Input needs to be a 3x3 array or matrix')
     q = np.array([1., 0., 0., 0.])
-    q[0] = 0.5*np.sqrt(1.0 + R.trace())
+    q[0] = 0.5*np.sqrt(max(1.0 + R.trace(), 0.0))
+    if q[0] < 1e-3:
+        # (Nearly) a half-turn: the divisions by q[0] below are singular.
+        q = shepperd(R.T)
+        return q if q[0] >= 0.0 else -q
     q[1] = (R[1, 2] - R[2, 1]) / q[0]
     q[2] = (R[2, 0] - R[0, 2]) / q[0]
     q[3] = (R[0, 1] - R[1, 0]) / q[0]
